@@ -1,28 +1,31 @@
 ----------------------------- MODULE PyLiteral -----------------------------
 (* C10: str / bytes / char literals keep exactly the value CPython assigns.   *)
 (*                                                                            *)
-(* Reference semantics (Python language reference 2.4.1 "String and Bytes    *)
+(* Reference semantics (Python language reference 2.4.1, "String and Bytes   *)
 (* literals"): a scanner STATE MACHINE over the code points of the literal    *)
 (* body.  One transition per lexical token, one named action per token class  *)
 (* (plain character, simple escape, line continuation, octal, \xhh, \uXXXX,   *)
-(* \UXXXXXXXX, \N{name}, unrecognised escape, rejection).  A case is an       *)
-(* behaviour: build 1-2 adjacent literals (implicit concatenation), each a    *)
-(* prefix, a quote kind and <= 3 ATOMS of the table below, then scan.  Final  *)
-(* states                                                                     *)
-(* carry the demanded value (`out`) or the rejection, and are published for   *)
-(* replay on compiled code (binding B1).                                      *)
+(* \UXXXXXXXX, \N{name}, unrecognised escape, the rejections).  A behaviour   *)
+(* BUILDS a case -- 1-2 adjacent literals (implicit concatenation), each a    *)
+(* prefix, a quote kind and <= 3 ATOMS of the table below -- and then scans   *)
+(* it.  Terminal states carry the demanded value (`out`) or the rejection and *)
+(* are published for replay on the real compiler and on compiled code (B1).   *)
+(* A family of long literals x^k unit^n (C-literal split limit 2000, 64 KiB)  *)
+(* is scanned through the representative x^k unit^3 (invariant Periodic).     *)
 (*                                                                            *)
 (* Independent second statement of the semantics: the hand-declared per-atom  *)
 (* values `sv` (str) / `bv` (bytes) of the table.  Invariant Compositional:   *)
 (* whenever no atom boundary FUSES (an octal escape continued by a digit,     *)
 (* a truncated \x \u \U completed by a hex digit, CR followed by LF), the     *)
 (* scanner's value is the concatenation of the declared atom values.          *)
+(* Deadlock freedom = the lexical rules are total on well-formed bodies.      *)
 (*                                                                            *)
-(* Implementation-shaped transcription (CyScan etc.): Lexicon.escapeseq longest    *)
-(* + Parsing._append_escape_sequence + the three literal builders of          *)
-(* StringEncoding.py.  Its prediction per case ("same" / "crash" / "reject"   *)
-(* / "value") is published; the harness compares it with the real compiler    *)
-(* (fidelity is reported, it is never a verdict).                             *)
+(* Implementation-shaped transcription (operators Cy...): the longest match   *)
+(* of Lexicon.escapeseq + Parsing._append_escape_sequence + the three literal *)
+(* builders of StringEncoding.py.  Its prediction per case ("same" / "crash"  *)
+(* / "reject" / "value") is published; the harness compares it with the real  *)
+(* compiler (fidelity is reported, it is never a verdict).  CyAgrees (not in  *)
+(* the shipped configurations) fails exactly on the predicted defects.        *)
 (* All text is sequences of code points (TLC has no character operations).    *)
 EXTENDS Integers, Sequences, FiniteSets, TLC, Json
 
@@ -377,8 +380,9 @@ CyEscLen(b, j) ==                      \* longest match of Lexicon.escapeseq at 
   ELSE IF d = LF \/ d \in DOMAIN SimpleMap THEN 2
   ELSE 1
 CyOk(v) == [s |-> "ok", v |-> v]
-CyRej == [s |-> "reject", v |-> <<>>]
-CyCrash == [s |-> "crash", v |-> <<>>]
+CyRej == [s |-> "reject", v |-> <<>>]       \* error(..., fatal=False): reported, scanning goes on
+CyFatal == [s |-> "fatal", v |-> <<>>]      \* s.error(...): CompileError, scanning stops
+CyCrash == [s |-> "crash", v |-> <<>>]      \* an exception other than CompileError escapes from the parser
 \* builder: "uni" UnicodeLiteralBuilder (u''), "str" StrLiteralBuilder ('' and r''), "bytes" BytesLiteralBuilder (b'', c'')
 CyEscape(builder, raw, b, j, n) ==     \* p_string_literal_shared_read / _append_escape_sequence on the token b[j .. j+n-1]
   LET d == At(b, j + 1)  tok == SubSeq(b, j, j + n - 1) IN
@@ -393,27 +397,31 @@ CyEscape(builder, raw, b, j, n) ==     \* p_string_literal_shared_read / _append
   ELSE IF d \in {78, 85, 117} /\ builder # "bytes" THEN
        (IF d = 78 THEN (IF n > 2 /\ Known(SubSeq(b, j + 3, j + n - 2)) THEN CyOk(<<NameCp(SubSeq(b, j + 3, j + n - 2))>>) ELSE CyRej)
         ELSE IF n = 6 THEN CyOk(<<Num(b, j + 2, 4, 16)>>)
-        ELSE IF n = 10 THEN (IF BigUOk(b, j + 2) THEN CyOk(<<Num(b, j + 4, 6, 16)>>) ELSE CyRej)
+        ELSE IF n = 10 THEN (IF BigUOk(b, j + 2) THEN CyOk(<<Num(b, j + 4, 6, 16)>>) ELSE CyFatal)
         ELSE CyRej)
   ELSE CyOk(tok)
+\* sequential composition of outcomes: fatal / crash stop; a non-fatal error is remembered while scanning goes on
+CySeq(t, r) == IF t.s \in {"fatal", "crash"} THEN t
+               ELSE IF r.s \in {"fatal", "crash"} THEN (IF t.s = "reject" /\ r.s = "fatal" THEN CyRej ELSE r)
+               ELSE IF t.s = "reject" \/ r.s = "reject" THEN CyRej
+               ELSE CyOk(t.v \o r.v)
 RECURSIVE CyScan(_, _, _, _)
 CyScan(builder, raw, b, j) ==
   IF j > Len(b) THEN CyOk(<<>>)
   ELSE LET n == IF b[j] = BS THEN CyEscLen(b, j) ELSE 1
            t == IF b[j] = BS THEN CyEscape(builder, raw, b, j, n)
-                ELSE IF builder = "bytes" /\ b[j] > 127 THEN CyRej ELSE CyOk(<<b[j]>>)
-       IN IF t.s # "ok" THEN t
-          ELSE LET r == CyScan(builder, raw, b, j + n) IN IF r.s # "ok" THEN r ELSE CyOk(t.v \o r.v)
+                ELSE IF builder = "bytes" /\ b[j] > 127 THEN CyFatal ELSE CyOk(<<b[j]>>)
+       IN IF t.s \in {"fatal", "crash"} THEN t ELSE CySeq(t, CyScan(builder, raw, b, j + n))
 CyBuilder(p) == IF PfxOf(p).k # "str" THEN "bytes" ELSE IF p \in {"u", "U"} THEN "uni" ELSE "str"
 RECURSIVE CyParts(_, _)
 CyParts(l, k) == IF k > Len(l.parts) THEN CyOk(<<>>)
                  ELSE LET part == l.parts[k]
                           t == CyScan(CyBuilder(part.p), PfxOf(part.p).raw, NL(BodySrc(part)), 1)
-                      IN IF t.s # "ok" THEN t
-                         ELSE LET r == CyParts(l, k + 1) IN IF r.s # "ok" THEN r ELSE CyOk(t.v \o r.v)
-CyResult(l) == IF KindOfLit(l) = "mixed" THEN CyRej
-               ELSE LET r == CyParts(l, 1) IN
-                    IF r.s = "ok" /\ KindOfLit(l) = "char" /\ Len(r.v) # 1 THEN CyRej ELSE r
+                      IN IF t.s \in {"fatal", "crash"} THEN t ELSE CySeq(t, CyParts(l, k + 1))
+CyResult(l) == LET r == CyParts(l, 1) IN
+               IF r.s = "crash" THEN r
+               ELSE IF KindOfLit(l) = "mixed" \/ r.s # "ok" THEN CyRej
+               ELSE IF KindOfLit(l) = "char" /\ Len(r.v) # 1 THEN CyRej ELSE r
 \* prediction relative to the demanded value (only meaningful in accepting terminal states)
 CyPrediction == LET r == CyResult(lit) IN
                 IF st # "done" THEN "nodemand" ELSE IF r.s # "ok" THEN r.s ELSE IF r.v = out THEN "same" ELSE "value"
